@@ -289,6 +289,10 @@ class ConditionalCoalescentTimes:
         # Return the cached lookup table, or None if the file does not hold a
         # complete table for n tips (in which case it should be recalculated)
         try:
+            with open(filename) as f:
+                text = f.read()
+            if not text.endswith("\n"):
+                return None  # cut short, possibly in the middle of the last number
             table = np.loadtxt(filename, ndmin=2)
         except (OSError, ValueError):
             return None
